@@ -1,2 +1,2 @@
 SPECIFICATION TSpec
-INVARIANTS SKnownScenario SMember
+INVARIANTS SKnownScenario SMember SOfForm
